@@ -231,9 +231,9 @@ def auto_discharge(f, b, s):
                 op, x, y = cnd[1][1], cnd[1][2], cnd[1][3]
                 if op == "SubWithOverflow" and const_int(x) is not None and const_int(y) is not None and const_int(x) >= const_int(y):
                     return "constant subtraction"
-                if op == "AddWithOverflow" and const_int(y) == 1 and (elem_of(peel(x)) or is_call(peel(x), ["Vec::len", "slice::len", "HashMap::len", "str::len", "String::len"])):
+                if op == "AddWithOverflow" and const_int(y) == 1 and (elem_of(peel(x)) or is_call(peel(x), ["Vec::len", "slice::len", "HashMap::len", "str::len", "String::len", "HashSet::len", "BTreeMap::len", "BTreeSet::len", "VecDeque::len"])):
                     return "index or length of an in-memory collection + 1 cannot overflow usize"
-                if op == "AddWithOverflow" and all(is_call(peel(z), ["Vec::len", "slice::len", "HashMap::len", "str::len", "String::len"]) for z in (x, y)):
+                if op == "AddWithOverflow" and all(is_call(peel(z), ["Vec::len", "slice::len", "HashMap::len", "str::len", "String::len", "HashSet::len", "BTreeMap::len", "BTreeSet::len", "VecDeque::len"]) for z in (x, y)):
                     return "sum of two in-memory collection lengths cannot overflow usize"
                 if op == "MulWithOverflow" and is_call(peel(x), ["str::len", "String::len", "Vec::len"]) and const_int(y) == 2:
                     return "twice the length of an in-memory string cannot overflow usize (allocations are limited to isize::MAX bytes)"
@@ -246,7 +246,7 @@ def site_key(b, s):
 
 def analyse(ctx, f, rid, suffix=""):
     eps = entry_points(f)
-    ctx.floor(rid, "public Result-returning entry points" + suffix, len(eps), 30)
+    ctx.floor(rid, "public Result-returning entry points" + suffix, len(eps), 22)
     reach, parent = reachable_with_cuts(f, eps)
     ctx.extra["entry_points" + suffix] = [strip_generics(f.bodies[k].path) for k in eps]
     ctx.extra["reachable_bodies" + suffix] = len(reach)
